@@ -185,10 +185,12 @@ func runOp(op *casefmt.Op, st *opState) {
 	if op.Constants != nil {
 		opts = append(opts, genql.WithConstants(op.Constants))
 	}
-	opts = append(opts, genql.UnReportedErrors(func(err error) {
-		noteReported(obs, errText(err))
-	}))
-	opts = append(opts, genql.CompletedCallback(func() { noteCompleted(obs) }))
+	if !op.NoHandlers {
+		opts = append(opts, genql.UnReportedErrors(func(err error) {
+			noteReported(obs, errText(err))
+		}))
+		opts = append(opts, genql.CompletedCallback(func() { noteCompleted(obs) }))
+	}
 	q, err := genql.New(doc, op.Query, opts...)
 	if err != nil {
 		obs.Returned = true
